@@ -2329,3 +2329,10 @@ NATIVE.add(DTB + ".on_header_comment", _gen_builder_case(["hcomment"]), _build_b
 NATIVE.add(DTB + ".on_service_response_marker", _gen_builder_case(["marker"]), _build_builder_case)
 NATIVE.add(DTB + ".on_directive", _gen_builder_case(["directive"]), _build_builder_case)
 NATIVE_BUDGET = {"quick": 300, "thorough": 3000}
+
+
+# effect obligations (AST, complete for what they state): no argument-keyed cache decorator, no module-level state - see
+# specs/common.py (the outcome of reading a text depends on the text and its dependencies, not on earlier reads)
+from .common import no_hidden_state_check as _no_hidden_state_check  # noqa: E402
+EXTRA_CHECKS = list(globals().get("EXTRA_CHECKS", [])) + [_no_hidden_state_check(
+    ["pydsdl._parser", "pydsdl._data_type_builder", "pydsdl._data_schema_builder"], "the parser / builder protocol")]
